@@ -69,7 +69,7 @@ SEQ = {
                            'f7_empty_write_unknown_consumer',
                            'f9_unknown_provider_new_consumer'],
                 quick=(36, 45), thorough=(900, 60)),
-    'C19': dict(models=['MC_names', 'MC_NameRules:MC_NameRules'], weights=W_NAMES,
+    'C19': dict(models=['MC_names', 'MC_NameRules:MC_NameRules', 'Startup:Startup'], weights=W_NAMES,
                 scenarios=['names_lifecycle', 'drop_class_in_use', 'sync_histories', 'sync_histories',
                            'sync_histories'],
                 quick=(36, 45), thorough=(600, 60)),
